@@ -17,6 +17,8 @@ ASSUME = [
     "FAILED events that report a failed descriptor fetch (a directory no upload was announced to, REASON=NOT_FOUND), for either "
     "service, are interleaved; they decide nothing; nor do Tor's other descriptor reports (CREATED - also a rebuild while uploads "
     "are being followed -, REQUESTED, RECEIVED, IGNORE), which are interleaved for either service as well",
+    "failed uploads are reported with REASON=UPLOAD_REJECTED and REASON=UNEXPECTED in turn (the directory rejected the descriptor / "
+    "could not be reached)",
     "Tor may report the outcome of an upload to one directory a second time (UploadedAgain / FailedAgain): what was counted once is not "
     "counted twice",
     "the control connection may be lost at any point (Lose): a pending wait - also an await-all wait with some uploads confirmed and "
